@@ -267,7 +267,27 @@ func ZZ_C19_toString_toRune_slices() {
 	toFloatSlice := zzBuiltin("toFloatSlice").(func([]interface{}) []float64)
 	toStringSlice := zzBuiltin("toStringSlice").(func([]interface{}) []string)
 	toBoolSlice := zzBuiltin("toBoolSlice").(func([]interface{}) []bool)
-	switch zz.Choose(8) {
+	switch zz.Choose(9) {
+	case 8:
+		// strings beyond ASCII, valid and invalid UTF-8 (concrete pool: the engine's
+		// symbolic strings are ASCII): every conversion is Go's own
+		pool := []string{"é", "日本", "a\xffb", "\xff", "\xc3", "a\x80", "\xe6\x97", "aé\xfe", "\xf0\x9f\x98\x80", "\xed\xa0\x80", ""}
+		str := pool[zz.Choose(len(pool))]
+		rs := toRuneSlice(str)
+		want := []rune(str)
+		zz.Assertf(len(rs) == len(want), "C19.toRuneSlice/go-conversion-beyond-ascii", str)
+		for i := range want {
+			if i < len(rs) {
+				zz.Assertf(rs[i] == want[i], "C19.toRuneSlice/go-conversion-beyond-ascii", str)
+			}
+		}
+		bs := toByteSlice(str)
+		zz.Assertf(string(bs) == str, "C19.toByteSlice/go-conversion-beyond-ascii", str)
+		zz.Assertf(toString(bs) == str, "C19.toString/bytes-beyond-ascii", str)
+		if len(want) > 0 {
+			zz.Assertf(toRune(str) == want[0], "C19.toRune/go-conversion-beyond-ascii", str)
+			zz.Assertf(toChar(want[0]) == string(want[0]), "C19.toChar/go-conversion-beyond-ascii", str)
+		}
 	case 7:
 		// a conversion's result is a value of its own (Go's string(b), []byte(s),
 		// []rune(s) copy): a later store into the argument does not show in a
